@@ -1,8 +1,8 @@
 SPECIFICATION Spec
 CONSTANTS
-  Ids = {"A", "B", "C", "D"}
-  InitUp = {"A", "B", "C"}
-  Small = {"s1"}
+  Ids = {"A", "B", "C"}
+  InitUp = {"A", "B"}
+  Small = {}
   Big = {"b1", "b2"}
   Fanout = 3
   TxLimit = 3
